@@ -5,6 +5,7 @@ import (
 	"go/ast"
 	"go/token"
 	"go/types"
+	"strings"
 
 	"yfverif/checker/internal/core"
 )
@@ -27,6 +28,7 @@ func C09(r *core.Report) {
 	checkLockDiscipline(r, "C09", func(f *core.Func) bool { return true })
 	checkGuardedBy(r, "C09.R4", guardedField{Type: "main.MultiEpoch", Field: "epochs", Mutex: "mu"})
 	c09ListingOrder(r)
+	c09SnapshotSelfChecked(r)
 	r.Floor("C09.R1", 4)
 	r.Floor("C09.R2", 40)
 	r.Floor("C09.R4", 15)
@@ -187,4 +189,82 @@ func enclosingRange(root ast.Node, n ast.Node) *ast.RangeStmt {
 		return true
 	})
 	return best
+}
+
+// c09SnapshotSelfChecked (C09.R6): the epoch set can change between two lock sections, so a decision taken on one
+// snapshot must not be applied to another one. Wherever an element of an epoch-number listing is taken by index, the
+// listing is a local snapshot and a test on the length of that very snapshot is known at that point; indexing the fresh
+// result of the accessor directly (guarded, at best, by an earlier and separately locked count) is reported.
+func c09SnapshotSelfChecked(r *core.Report) {
+	const rule = "C09.R6"
+	p := r.Prog
+	isListing := func(info *types.Info, c *ast.CallExpr) bool {
+		nm := core.CalleeName(info, c)
+		return nm == "main.(*MultiEpoch).GetEpochNumbers" || nm == "main.(*MultiEpoch).getEpochNumbersNoLock"
+	}
+	n := 0
+	for _, f := range p.FuncsInPkg("main") {
+		if f.Body == nil || strings.HasSuffix(p.FileOf(f.Pos()), "_test.go") {
+			continue
+		}
+		for _, w := range f.AllWithLits() {
+			info := w.Pkg.TypesInfo
+			g := p.Graph(w)
+			ast.Inspect(w.Body, func(m ast.Node) bool {
+				if l, ok := m.(*ast.FuncLit); ok && l != w.Lit {
+					return false
+				}
+				ix, ok := m.(*ast.IndexExpr)
+				if !ok {
+					return true
+				}
+				base := core.Unparen(ix.X)
+				if c, ok := base.(*ast.CallExpr); ok && isListing(info, c) {
+					n++
+					r.Violation(rule, fmt.Sprintf("%s#index-on-fresh-listing:%s", w.Key, core.ExprStr(ix)), pos(r, ix), "an element is taken from a fresh epoch listing ("+core.ExprStr(ix)+") that was never checked itself: whatever was tested before came from another lock section, and the epoch set may have changed in between (wrong epoch chosen, or index out of range)")
+					return true
+				}
+				o := core.ObjOf(info, base)
+				if o == nil {
+					return true
+				}
+				d := singleDef(w, o)
+				if d == nil {
+					return true
+				}
+				c, ok := core.Unparen(d).(*ast.CallExpr)
+				if !ok || !isListing(info, c) {
+					return true
+				}
+				if inSortComparator(p, w, base, ix.Index) {
+					return true // indices handed out by sort.Slice for this very slice
+				}
+				n++
+				k := fmt.Sprintf("%s#index-on-snapshot:%s", w.Key, core.ExprStr(ix))
+				node := g.NodeOf(ix.Pos())
+				okLen := false
+				if node != nil {
+					for _, fc := range g.FactsAtPos(node, ix.Pos(), ix.End()) {
+						if fc.Tag == nil && strings.Contains(core.ExprStr(fc.Expr), "len("+o.Name()+")") {
+							okLen = true
+						}
+					}
+				}
+				// ranging over the snapshot also bounds the index
+				if !okLen {
+					ast.Inspect(w.Body, func(x ast.Node) bool {
+						if rs, ok := x.(*ast.RangeStmt); ok && core.ObjOf(info, rs.X) == o && rs.Pos() <= ix.Pos() && ix.End() <= rs.End() && rs.Key != nil && core.ObjOf(info, rs.Key) == core.ObjOf(info, ix.Index) {
+							okLen = true
+						}
+						return true
+					})
+				}
+				r.Check(okLen, rule, k, pos(r, ix), "the element is taken from a local snapshot whose own length was tested", "an element of the epoch listing snapshot "+o.Name()+" is taken without a test on the length of that snapshot")
+				return true
+			})
+		}
+	}
+	if n == 0 {
+		r.OK(rule, "main#no-indexing-of-epoch-listings", "", "no element of an epoch listing is taken by index")
+	}
 }
